@@ -23,7 +23,8 @@ TCrash   == Is("crash") /\ dead' = dead \cup {Ev.w} /\ UNCHANGED <<counter, slot
 TGetMax  == Is("getmax") /\ GetMax(Ev.w, Ev.from)
                          /\ IF Ev.max = -2 THEN counter = Absent ELSE counter = Ev.max
 TGet     == Is("get")   /\ rpc[Ev.w].i = Ev.i /\ GetSlot(Ev.w) /\ (Ev.hit = 1) = (Ev.i \in DOMAIN slot)
-TSleep   == Is("sleep") /\ rpc[Ev.w].pc = "loop" /\ rpc[Ev.w].i \notin DOMAIN slot
+\* the sleep follows a GET that missed; the record may have arrived between that GET and the sleep (no condition on slot)
+TSleep   == Is("sleep") /\ rpc[Ev.w].pc = "loop"
                          /\ UNCHANGED <<counter, slot, apc, rpc, acked, results, dead>>
 TRet     == Is("ret")   /\ Return(Ev.w)
                          /\ LET got == results'[Len(results')].got IN
